@@ -1256,6 +1256,10 @@ impl LsmTree {
                         break 'inner compaction;
                     } else {
                         COMPACTION_THREAD_NO_COMPACTION.click();
+                        #[cfg(blue_verif)]
+                        if crate::verif::single_step() {
+                            return Ok(());
+                        }
                         mutex = self.compact.wait(mutex).unwrap();
                     }
                 }
@@ -1265,6 +1269,13 @@ impl LsmTree {
                 let version = self.take_snapshot();
                 let _ = version.version.release_compaction(compaction);
                 return Err(err);
+            }
+            #[cfg(blue_verif)]
+            {
+                crate::verif::compaction_performed();
+                if crate::verif::single_step() {
+                    return Ok(());
+                }
             }
         }
     }
@@ -1599,6 +1610,29 @@ impl LsmTree {
                 let _ = rename(sst_path, trash_path);
             }
         }
+    }
+
+    /// The current version's levels: metadata of every SST in level order.
+    #[cfg(blue_verif)]
+    pub fn verif_levels(&self) -> Vec<Vec<SstMetadata>> {
+        let version = self.take_snapshot();
+        version
+            .version
+            .levels
+            .iter()
+            .map(|l| l.ssts.iter().map(|m| (**m).clone()).collect())
+            .collect()
+    }
+
+    /// Run the compaction thread's loop for one iteration; true iff a compaction was performed.
+    #[cfg(blue_verif)]
+    pub fn verif_compact_once(&self) -> Result<bool, SError> {
+        let before = crate::verif::compactions_performed();
+        crate::verif::set_single_step(true);
+        let ret = self.compaction_thread();
+        crate::verif::set_single_step(false);
+        ret?;
+        Ok(crate::verif::compactions_performed() > before)
     }
 
     pub fn get(&self, key: &[u8]) -> Result<Option<Vec<u8>>, SError> {
